@@ -41,3 +41,12 @@ Print Assumptions C10_general_expr_pointwise.
 Print Assumptions C10_qs_sum_pointwise.
 Print Assumptions C10_qs_product_pointwise.
 Print Assumptions C10_qs_scale_pointwise.
+
+(* ---- every quasiseparable kernel EXPRESSION: a syntax (leaves, sums, products, scalings) compiled with the model's combinators; by induction on
+   the expression the compiled kernel obeys the state-space laws and its pointwise value is that arithmetic on the leaves' values ---- *)
+From TinyGP Require Import Theory.SSKExpr.
+Theorem C10_qs_expression_pointwise (F : fieldType) sq lt (X : Type) (ltX : X -> X -> bool) (e : qexpr F X) :
+  leaves_ok ltX e ->
+  ss_laws (compile sq lt e) /\ forall x y, ss_evaluate (fops sq lt) (compile sq lt e) x y = value sq lt e x y.
+Proof. exact: compile_sound. Qed.
+Print Assumptions C10_qs_expression_pointwise.
